@@ -138,6 +138,9 @@ def hash_semantic(chk, program):
     except (A.Unknown, A.RaiseSignal) as u:
         chk.unit('add_data_not_interpretable', str(u))
         return False
+    if isinstance(off, A.AOpaque) or isinstance(on, A.AOpaque):
+        chk.unit('add_data_not_interpretable', f"hash value not followed: {off!r} / {on!r}"[:200])
+        return False
     chk.check(off is None, 'HASH-DEPS', 'hash-only-when-mapping', file=MSG, line=fn.lineno, func='add_data', expected='hash is None when network mapping is off', found=repr(off) if off is not None else 'None')
     chk.check(not hb0 and not hb1, 'HASH-DEPS', 'no-builtin-hash', file=MSG, line=(hb0 + hb1 + [fn.lineno])[0], func='add_data', expected='builtin hash() not used (salted per process)', found=len(hb0 + hb1), nontrivial=False)
     okd = isinstance(on, A.AObj) and on.attrs.get('algo') in ALGOS and on.attrs.get('digest') in ('hexdigest', 'digest')
